@@ -7,9 +7,11 @@ G = 2
 w = 7
 
 
-class K:
+class KBase:
     C = 3
 
+
+class K(KBase):         # K.C is inherited (found through the class hierarchy), K.Inner.D is K.Inner's own
     class Inner:
         D = 4
 
@@ -65,6 +67,12 @@ def make():
     def b_S14(ds):
         return ds.Select(lambda G: ([G.pt for G in G.jets], G))
 
+    def b_S18(ds):
+        return ds.Select(lambda G: ((lambda: 3)(), G, v))
+
+    def b_S19(ds):
+        return ds.Select(lambda G: ((lambda: G.pt)(), G + v))
+
     def b_S15(ds):
         return ds.Select(lambda e: e.jets.Select(lambda j: j.trks.Where(lambda t: t.pt > G)))
 
@@ -77,5 +85,5 @@ def make():
     def b_S17(ds):
         return ds.Select(d17)
 
-    return {"S17": b_S17, "S15": b_S15, "S16": b_S16, "S13": b_S13, "S14": b_S14, "set_v": set_v, "set_w": set_w, "S1": b_S1, "S2": b_S2, "S3": b_S3, "S4": b_S4, "S5": b_S5,
+    return {"S18": b_S18, "S19": b_S19, "S17": b_S17, "S15": b_S15, "S16": b_S16, "S13": b_S13, "S14": b_S14, "set_v": set_v, "set_w": set_w, "S1": b_S1, "S2": b_S2, "S3": b_S3, "S4": b_S4, "S5": b_S5,
             "S6": b_S6, "S7": b_S7, "S9": b_S9, "S10": b_S10, "S11": b_S11, "S12": b_S12}
